@@ -95,3 +95,54 @@ fn encode_verify_long_form_two_octets() {
     encode_verify_body::<257>();
     encode_verify_body::<1000>();
 }
+
+//------------ ROA coverage ---------------------------------------------------------
+
+use rpki::repository::resources::{Addr, IpBlock, IpBlocks, Prefix};
+use rpki::repository::resources::verif::Block;
+use rpki::repository::roa::RoaIpAddress;
+
+/// An arbitrary canonical IP chain of exactly 2 blocks (full-width bounds).
+fn any_ip_blocks2() -> (IpBlocks, [(u128, u128); 2]) {
+    let a0: u128 = kani::any();
+    let a1: u128 = kani::any();
+    let b0: u128 = kani::any();
+    let b1: u128 = kani::any();
+    kani::assume(a0 <= a1 && b0 <= b1 && a1 < u128::MAX && a1 + 1 < b0);
+    let mk = |lo: u128, hi: u128| <IpBlock as Block>::new(
+        Addr::from_bits(lo), Addr::from_bits(hi));
+    (IpBlocks::verif_from_vec_unchecked(vec![mk(a0, a1), mk(b0, b1)]),
+     [(a0, a1), (b0, b1)])
+}
+
+/// @tier quick thorough
+/// @fn rpki::repository::resources::ipres::IpBlocks::contains_roa
+///   rpki::repository::resources::ipres::IpBlocks::contains_block
+///   rpki::repository::roa::RoaIpAddress::range
+/// @bounds EE resources = arbitrary canonical set of exactly 2 blocks with
+///   full-width (u128) bounds; ROA prefix = arbitrary address and length
+///   0..=128; unwind 5
+/// @says a ROA prefix is covered by the certificate's resources exactly when
+///   its whole address range lies inside one of the resource blocks (a
+///   prefix sticking out of a block at either edge, or spanning the gap
+///   between two blocks, is not covered)
+#[kani::proof]
+#[kani::unwind(5)]
+fn roa_prefix_covered_iff_inside_one_block() {
+    let (blocks, b) = any_ip_blocks2();
+    let bits: u128 = kani::any();
+    let len: u8 = kani::any();
+    kani::assume(len <= 128);
+    let mask = if len >= 128 { 0 } else { u128::MAX >> len };
+    let (lo, hi) = (bits & !mask, bits | mask);
+    let prefix = Prefix::new(Addr::from_bits(bits), len);
+    let roa = RoaIpAddress::new(prefix, None);
+    let want = (b[0].0 <= lo && hi <= b[0].1) || (b[1].0 <= lo && hi <= b[1].1);
+    let got = blocks.contains_roa(&roa);
+    kani::cover!(got && b[1].0 <= lo);
+    kani::cover!(!got && lo < b[0].0 && b[0].0 <= hi);
+    kani::cover!(!got && lo <= b[0].1 && b[1].0 <= hi);
+    assert_eq!(got, want);
+    assert_eq!(blocks.contains_block(prefix), want);
+    std::mem::forget(blocks);
+}
